@@ -73,10 +73,18 @@ End Generic.
 
 Definition total_ops {A} (progs : list (list A)) : nat := length (concat progs).
 
+(* a gauge operation never panics: a recorded panic (result (1)) is a violation by itself *)
+Definition has_panic (calls : sx) : bool :=
+  match calls with
+  | SL cs => existsb (fun c => match c with SL [_; _; SL [SZ 1]; _; _] => true | _ => false end) cs
+  | _ => false
+  end.
+
 Definition check (s : sx) : Z :=
   match s with
   | SL [SZ kind; progs; sched; tr; calls; SZ flags] =>
       if Z.eqb kind 0 || Z.eqb kind 2 then
+        if has_panic calls then code_spec_violation else
         match dL (dL d_gop) progs, dL dZ sched, d_trace tr, dL (d_call d_gret) calls with
         | Some progs, Some sched, Some tr, Some calls =>
             match impl_history (M := gauge_machine) progs calls with
